@@ -309,6 +309,7 @@ def build_indices_rules(ctx, tk, rule):
     fa = ctx.fa(f)
     viewp, shapep = f.params[0], f.params[1]
     found = False
+    sel_verdicts = []
     for n in fa.cfg.stmts():
         if not (n.kind == "stmt" and isinstance(n.ast, ast.Assign) and isinstance(n.ast.targets[0], ast.Subscript)):
             continue
@@ -357,6 +358,7 @@ def build_indices_rules(ctx, tk, rule):
             okp = None if okp is not False else False
             break
         ctx.decide(rule, f, "the selector keeps exactly the non-empty rows", okp, "selector is %s" % (sel_t,), node=n.ast, key="selector", engine="E1")
+        sel_verdicts.append(okp)
     if not found:
         ctx.unknown(rule, f, "row-to-row jump scatter", "construct not recognised", engine="E6")
     # extent: builder has size+1 entries, result drops the last
@@ -369,7 +371,25 @@ def build_indices_rules(ctx, tk, rule):
                     ext = ext.a[1][0]
                 if any(attr_chain(x) == (shapep, "size") for x in walk(ext)):
                     ok = ext.k == "bin" and ext.a[0] == "+" and is_const(ext.a[2], 1)
-                    ctx.decide(rule, f, "the index builder has size+1 entries (row starts of trailing empty rows equal size)", ok,
+                    if not ok and attr_chain(ext) == (shapep, "size"):
+                        # exactly `size` entries suffice when only starts of non-empty rows are written (each < size) and the
+                        # result is not shortened afterwards
+                        trimmed = False
+                        for r in fa.cfg.returns():
+                            rv = fa.term(r.ast.value, r) if r.ast.value is not None else None
+                            tops = []
+                            for a in (alts(rv) if rv is not None else ()):
+                                tops += list(a.a[0]) if a.k == "tuple" else [a]
+                            for x in tops:
+                                for y in alts(x):
+                                    if y.k == "sub" and y.a[1].k == "slice" and is_const(y.a[1].a[1], -1):
+                                        trimmed = True
+                        if sel_verdicts and all(v is True for v in sel_verdicts) and not trimmed:
+                            ok = True
+                        elif not trimmed and sel_verdicts and all(v is not False for v in sel_verdicts):
+                            ok = None
+                    ctx.decide(rule, f, "the index builder has room for every position written: size+1 entries (row starts of trailing empty rows equal size), "
+                               "or size entries when only starts of non-empty rows are written", ok,
                                "extent is %s" % (ext,), node=n.ast, key="extent", engine="E5")
 
 
